@@ -20,12 +20,13 @@ import numpy as np
 from hypothesis import strategies as st
 
 from vlib.runner import Sub, Violation, Inconclusive, Reject, ok
-from vlib.util import fl, rng_of, numpy_seed
+from vlib.util import rng_of, numpy_seed
 from vlib import wbsys
 
 PROPERTY_ID = "C24"
 RULE = ("parent model with 3..8 orbitals x multiplicity 1..3 (NB = 3..9 bands), mesh <= 3x3x2, data 'tb' (overlaps of the "
-        "parent eigenvectors) or 'random'; four window edges drawn as (k-point, band index) midpoints or infinite; NW between "
+        "parent eigenvectors) or 'random'; four window edges drawn in units of parent bands as midpoints above a band at a drawn "
+        "k-point (between two multiplets or inside one) or infinite, then ordered; NW between "
         "max_k #frozen and min_k #outer; init in {amn, random}; num_iter in {0,1,5,30}; localise in {True, False}; "
         "mix_ratio_z in {1, 0.5}; parallel=False, sitesym=False.  non-trivial = at some k the frozen set is non-empty and "
         "smaller than the selected set, and at some k the outer window excludes a band; distinct = distinct generated case")
